@@ -8,26 +8,29 @@ CHECKS = {
     "C07": dict(
         category="exploration", engine="E1", design_ref="DESIGN.md 2.5 (hostile names), 3/C07",
         technique="bounded-exhaustive enumeration of hostile-name assignments to skeleton name slots x generator option sets x irregular XML/JSON samples, with import / bind / instantiate / duplicate-name oracles",
-        text=("XSD (with and without target namespace) and DTD skeletons with 10 name slots: every single slot x 67 hostile names (59 values for enumeration slots) and every same-scope slot pair x 19+ "
-              "names that collide after case / punctuation normalisation (thorough: each x 62 option sets incl. all 8 name cases per object type); every option set on the default names; every "
+        text=("XSD (with and without target namespace) and DTD skeletons with 11 name slots: every single slot x 67 hostile names (59 values for enumeration slots), every same-scope slot pair x 19+ "
+              "names that collide after case / punctuation normalisation, every same-scope slot triple x 6 three-way collisions x 3 rotations (thorough: each x 62 option sets incl. all 8 name cases per "
+              "object type); the same names on a two-namespace schema pair with one type name in both namespaces x the 5 structure styles; every option set on the default names; every "
               "G-tree document within the bound as an irregular XML sample (alone or in pairs) and 10 JSON shapes x hostile keys, x option sets. Generation must end in success or CodegenError; every "
-              "module must compile and import, every class must yield binding metadata and be instantiable, no scope may contain two fields or two classes of one name."),
+              "module must compile and import, every class must yield binding metadata and be instantiable, no scope may contain two fields or two classes of one name, no module may define a class under a name it imports from a sibling module."),
         note="stand-ins for jinja2/toposort/click/ruff (ruff no-op: formatting not checked); 120 s watchdog; one open known finding"),
     "C02": dict(
         category="exploration", engine="E1+G-xsd", design_ref="DESIGN.md 2.5 (G-xsd), 3/C02",
         technique="bounded-exhaustive enumeration of generated schemas x generator options x schema-derived instance documents, with libxml2 as independent validator and infoset oracle",
-        text=("Every G-xsd schema (base + <= 1 (thorough 2) of 39 features) is rendered, fed to the real generator under 8 (thorough 16) option sets; the generated package must import and bind; every "
+        text=("Every G-xsd schema (base + <= 1 (thorough 2) of 43 features) is rendered, fed to the real generator under 8 (thorough 16) option sets; the generated package must import and bind; every "
               "instance document the schema's own AST yields within the unrolling / deviation bound is first validated by libxml2, must parse under the strictest parser settings, and its "
               "re-serialization must have the same infoset after typed normalisation and schema-prescribed defaults (ordered, and schema-valid again, where the property demands order). The same "
               "expectations are applied under every option set, so accepted documents and produced infosets cannot depend on output-only options."),
-        note="stand-ins for jinja2/toposort/ruff/click; XSD 1.1-only constructs and facets xsdata does not enforce are outside the generated fragment; two open known findings"),
+        note="stand-ins for jinja2/toposort/ruff/click; XSD 1.1-only constructs and facets xsdata does not enforce are outside the generated fragment; five open known findings"),
     "C12": dict(
         category="model_checking", engine="E4+E1", design_ref="DESIGN.md 2.4, 3/C12",
         technique="exhaustive exploration of the environment's answers (set-iteration order at every reached site, id() direction) within a deviation bound, on the real generator loaded through an owning AST transform; plus bounded real hash-seed sweep and route comparison",
         text=("The code generator modules of the current tree are imported through a transform that turns every set(...) call / display / comprehension and id() into explorer choice points. For each "
-              "source set of the corpus (xsd with cycles, two namespaces, unions, enums; upstream xsd / dtd / wsdl / xml / json fixtures) every choice vector with <= 1 (thorough 2) non-default answers "
-              "must produce byte-identical files to the canonical-order run. Real PYTHONHASHSEED 0..3 (thorough 0..31) in fresh processes validates the owned model and covers C-level derived sets; "
-              "generating twice in one process and API vs config-file vs CLI-flag routes for 13 option deviations are compared byte for byte."),
+              "source set of the corpus (synthetic xsd sets with cycles, a hub of back-references, two namespaces, same-named classes from differently named files, each under all 5 structure styles; upstream "
+              "xsd / dtd / wsdl / xml / json fixtures) every choice vector with <= 1 (thorough 2) non-default answers must produce byte-identical files to the canonical-order run; results of set algebra "
+              "and the toposort stand-in are owned too. Real PYTHONHASHSEED 0..3 (thorough 0..31) in fresh processes validates the owned model and covers sets built in C; generating twice in one "
+              "process, every ordered pair of 4 naming-convention sets run one after the other in one process (second run vs a pristine interpreter), and API vs config-file vs CLI-flag routes for 13 "
+              "option deviations are compared byte for byte."),
         note="stand-ins for jinja2/click/toposort/ruff (shims/, conformance-checked against upstream fixtures); bytes compared before ruff; include_header excluded"),
     "C10": dict(
         category="exploration", engine="E1+E5", design_ref="DESIGN.md 3/C10",
@@ -35,14 +38,16 @@ CHECKS = {
         text=("For every G-model model without generic content (quick 0.7k, thorough 6k) and its default / one-deviation instance: unknown elements of 6 shapes at every child slot of every "
               "class-bound element, 4 kinds of unknown attributes (incl. xsi:schemaLocation and arbitrary xsi:*) on every class-bound element, every typed leaf corrupted, each under all 8 "
               "combinations of the three fail_on_* options and both handlers; the same for dictionary and JSON input. The outcome must be exactly what the decision table says: equal object, "
-              "ParserError, or value kept as given plus ConverterWarning."),
+              "ParserError, or value kept as given plus ConverterWarning. Plus: a model with an open wildcard / attribute map in a child and namespace-restricted ones on the root x every document with "
+              "<= 2 injected elements and <= 1 injected attribute at either place, judged by the documented namespace constraints (what is unknown depends on the field, not on the name)."),
         note="'unknown' is decided from the field list alone; attributes on simple-typed elements are not judged"),
     "C15": dict(
         category="fault_enumeration", engine="E1+E5", design_ref="DESIGN.md 3/C15",
         technique="exhaustive single-fault enumeration (every byte offset, every element, every value) on valid documents, error-type and well-formedness oracles",
         text=("Every single structural fault on every element / attribute / text of each model document (delete, duplicate, retag, re-namespace, undeclared prefix, swap, child in simple content, "
-              "5 bad xsi:type and 5 xsi:nil values, wrong / wrapped root), truncation at every byte offset, deletion of every byte and 6 substitutions at every offset of 44 (thorough 673) "
-              "documents, all byte strings of length <= 2 over 8 bytes, and 5 + 8-per-key JSON/dict faults through DictDecoder, JsonParser and truncated JSON text; both handlers. Each call must "
+              "12 foreign xsi:type values incl. the binary datatypes and 5 xsi:nil values, 12 replacement values for every typed leaf, wrong / wrapped root; each also under a lenient configuration), truncation at every byte offset, deletion of every byte and 6 substitutions at every offset of 44 (thorough 673) "
+              "documents, all byte strings of length <= 2 over 8 bytes, a well-formed document under 35 declared encoding names, and 5 + 8-per-key JSON/dict faults through DictDecoder, JsonParser, truncated JSON text and "
+              "List[Model] targets; both handlers. Each call must "
               "return an instance of the requested class or raise a documented error within the watchdog, and the native handler must reject what expat and libxml2 both call not well-formed."),
         note="bounded time is a 20 s watchdog; documented errors: ParserError, ConverterError, XmlContextError, XmlHandlerError, json.JSONDecodeError"),
     "C09": dict(
@@ -64,8 +69,8 @@ CHECKS = {
     "C03": dict(
         category="model_checking", engine="E1+E5", design_ref="DESIGN.md 2.1, 2.6, 3/C03",
         technique="explicit event-sequence exploration of the writer state machine on the real writers + bounded-exhaustive comparison with an independent reference serializer",
-        text=("Leg 1: every well-nested writer event sequence over all tree shapes with <= 3 (thorough 4) elements and <= 2 (3) non-default labels x 12 user prefix maps (default "
-              "namespace, collisions with generated prefixes, duplicate URIs, reserved/invalid prefixes, empty URI) is fed to the real XmlEventWriter, LxmlEventWriter and LxmlTreeBuilder; "
+        text=("Leg 1: every well-nested writer event sequence over all tree shapes with <= 3 (thorough 4) elements and <= 2 (3) non-default labels x 15 user prefix maps (default "
+              "namespace, collisions with generated prefixes, duplicate URIs, reserved/invalid prefixes and namespace names, empty URI) is fed to the real XmlEventWriter, LxmlEventWriter and LxmlTreeBuilder; "
               "the result must be a library error or a document that expat and strict libxml2 accept and whose infoset (QName values resolved in scope) is the tree the events denote; "
               "distinct canonical EventHandler states and transitions are counted. Leg 2: G-model models x instances x prefix maps x both writers against vmc/refser.py, an independent "
               "reading of the documented metadata that never touches XmlMeta/XmlVar/EventGenerator."),
@@ -80,19 +85,19 @@ CHECKS = {
     "C14": dict(
         category="model_checking", engine="E2", design_ref="DESIGN.md 2.2, 3/C14",
         technique="explicit-state breadth-first search over operation histories on the real objects, canonical state hashing, differential oracle shared-vs-fresh on every transition",
-        text=("BFS over histories of <= 4 (thorough 5) operations from a pool of 17 (parse/serialize/JSON decode/encode, succeeding and failing, both handlers, models "
-              "built to collide on shared state: a namespace-less child under two parents, xsi:type lookups, wildcard memo, prefix re-binding, a module imported between "
-              "calls) applied to one shared XmlContext + parsers + serializers. States are real objects rebuilt by replaying the history and deduplicated by a generic "
+        text=("BFS over histories of <= 3 (thorough 4) operations from a pool of 34 (parse/serialize/JSON decode/encode, succeeding and failing, both handlers, models "
+              "built to collide on shared state: a namespace-less child under two parents, xsi:type lookups incl. one name in two hierarchies, wildcard memo, prefix re-binding, modules imported between "
+              "calls, a serializer with its own globalns, one compound field fed strings that select different choices) applied to one shared XmlContext + parsers + serializers. States are real objects rebuilt by replaying the history and deduplicated by a generic "
               "canonical hash of every slot of those objects and of all cached XmlMeta/XmlVar. Invariant on every transition: result on shared instances == result on fresh instances."),
         note="fixed operation pool; process-wide pure lru_caches not part of the state; one open known finding (metadata cache keyed by class only)"),
     "C19": dict(
         category="model_checking", engine="E3+E1", design_ref="DESIGN.md 2.3, 3/C19",
         technique="stateless preemption-bounded exploration of real threads on the real code under a controlled scheduler (sys.monitoring LINE events + per-thread semaphores)",
-        text=("Ten 2-thread harnesses forced to collide on the shared XmlContext / XmlParser / XmlSerializer (cold context, lookup without target class, xsi:type "
+        text=("Fifteen 2-thread harnesses forced to collide on the shared XmlContext / XmlParser / XmlSerializer (cold context, lookup without target class, xsi:type "
               "lookups, wildcard namespace memo, parse vs serialize, module import changing len(sys.modules)) are run under every schedule with <= 2 preemptions "
               "(thorough: <= 3, plus 3-thread harnesses with <= 2). Scheduling points are the executed lines that read or write shared mutable state: the attribute "
-              "set is found by a dynamic write profile (canonical hash of the shared roots after every line, run per operation) and the lines by an AST scan of the "
-              "current tree, so state added by an edit is picked up. Oracle: every call's result equals its result when run alone, and the shared objects still work afterwards."),
+              "set is found by a dynamic write profile (canonical hash of the shared roots after every line, run per operation alone and after every operation it can meet) and the lines by an AST scan "
+              "of the current tree, so state added by an edit is picked up; a static site offers a preemption at its first 3 dynamic occurrences per thread. Oracle: every call's result equals its result when run alone, and the shared objects still work afterwards."),
         note="line granularity (no preemption between bytecodes of one line); steps on thread-local state commute; >3 threads / >3 preemptions outside the bound"),
     "C04": dict(
         category="exploration", engine="E1+E4", design_ref="DESIGN.md 2.1, 2.4, 2.5, 3/C04",
@@ -111,8 +116,8 @@ CHECKS = {
     "C01": dict(
         category="exploration", engine="E1", design_ref="DESIGN.md 2.1, 2.5, 3/C01",
         technique="bounded-exhaustive enumeration of generated binding models x instances x serializer configs x backends, round-trip oracle",
-        text=("Every binding model the G-model grammar yields within the deviation bound (quick: <=2 fields, <=3 non-default grammar answers, 6.7k models; "
-              "thorough: <=3 fields, <=4 answers, 170k models) is materialised as real dataclasses; for each, the full product of the per-field value alphabets under the "
+        text=("Every binding model the G-model grammar yields within the deviation bound (quick: <=2 fields, thorough: <=3 fields, <=3 non-default grammar answers, plus every single-field model with >= 2 such answers once more as a pair "
+              "of equal fields) is materialised as real dataclasses; for each, the full product of the per-field value alphabets under the "
               "default configuration and every <=2-deviation combination of values and serializer configuration is rendered by both writers and parsed by both handlers; "
               "the result must equal the original structurally with exact leaf types. No reference model: blind to symmetric mistakes (C03 covers those)."),
         note="domain exclusions are listed in evidence.assumptions and DESIGN.md; six analysed defects are listed as open known findings, each as a predicate over case and outcome"),
